@@ -43,14 +43,15 @@ PairNext(r) ==
      /\ g' = [g EXCEPT !.flags = @ \cup (f \ Ignore)]
      /\ last' = [req |-> r, m |-> om.resp.c, r |-> or.resp.c, new |-> f]
 
-CloudNext(r) ==
+CloudNext(r, pre) ==
   LET o == CloudStep(s.c, r, K)
-      f == Tag("cloud", CloudViol(g.rep, r, o.resp, CloudObs(s.c), CloudObs(o.s)))
+      f == Tag("cloud", CloudViol(g.rep, r, o.resp, pre, CloudObs(o.s)))
   IN /\ s' = [c |-> o.s]
      /\ g' = [flags |-> g.flags \cup (f \ Ignore), rep |-> CloudGhost(g.rep, r, o.resp)]
      /\ last' = [req |-> r, c |-> o.resp.c, new |-> f]
 
-Next == \E r \in Reqs : IF Kind = "pair" THEN PairNext(r) ELSE CloudNext(r)
+Next == IF Kind = "pair" THEN \E r \in Reqs : PairNext(r)
+        ELSE LET pre == CloudObs(s.c) IN \E r \in Reqs : CloudNext(r, pre)
 
 Spec == Init /\ [][Next]_<<s, g, last>>
 View == <<s, g>>
